@@ -58,7 +58,12 @@ func init() {
 			{ID: "C02.3", Desc: "conditional request: validators copied onto a clone", Run: func(c *Ctx) { ruleC02_3(c); ruleValidatorGuards(c, "C02.3"); ruleClientValidatorsRemoved(c, "C02.3") }, MinSites: 3},
 			{ID: "C02.4", Desc: "qualified no-cache fields stripped on every unvalidated return", Run: ruleC02_4, MinSites: 1},
 			{ID: "C02.5", Desc: "validation handler returns the stored response only for 304 (or stale-if-error)", Run: ruleC02_5, MinSites: 1},
-			{ID: "C02.8", Desc: "unqualified no-cache is not lost to a repeated or member-less qualified form", Run: func(c *Ctx) { ruleC12_11(c); ruleC12_12(c); renameRule(c, "C12.11", "C02.8"); renameRule(c, "C12.12", "C02.8") }, MinSites: 2},
+			{ID: "C02.8", Desc: "unqualified no-cache is not lost to a repeated or member-less qualified form", Run: func(c *Ctx) {
+				ruleC12_11(c)
+				ruleC12_12(c)
+				renameRule(c, "C12.11", "C02.8")
+				renameRule(c, "C12.12", "C02.8")
+			}, MinSites: 2},
 			{ID: "C02.7", Desc: "Cache-Control (request and stored response) is read through all of its field lines", Run: func(c *Ctx) { ruleRLIST(c, "C02.7", "Cache-Control") }, MinSites: 1},
 			{ID: "C02.6", Desc: "a positive request max-age caps the lifetime on every path", Run: func(c *Ctx) { ruleRequestMaxAgeCaps(c, "C02.6") }, MinSites: 1},
 			{ID: "C02.9", Desc: "the age of a freshened response counts from the 304 (stored Age dropped before, the 304's Age merged): a stale must-revalidate response is not served as fresh", Run: func(c *Ctx) { ruleMergeFilter(c, "C02.9") }, MinSites: 1},
